@@ -410,6 +410,36 @@ def dec2hp_ref(dec, places):
     return int(degree) + int(minute) / 100 + second / 10000
 '''
 
+CARRY_WITNESS = ('dec2hp_v(numpy.array([1.0833333333333333])) returned 1.046 (1 deg 04 min 60 s) on the code as found: the seconds came out of divmod as 59.99999999999, '
+                 'were not carried, and the float sum rounded them to 60; hp2dec rejects the value')
+
+
+def producer_carry_rules(repo, rep, m):
+    """dec -> HP splits the angle with divmod(abs(dec) * 3600, 60): the seconds can come out as 59.999999999999 for a whole minute.  The scalar
+    dec2hp rounds them and carries 60 s into the minutes and 60 min into the degrees (R-CARRY); every sibling that assembles an HP number from
+    such fields must do the same, otherwise it returns D.MM60 - an invalid HP value"""
+    for name, f in sorted(m.functions.items()):
+        if not (name.startswith('dec2hp') and not name.endswith('a')):
+            continue
+        splits = [n for n in ast.walk(f.node) if isinstance(n, ast.Call) and isinstance(n.func, ast.Name) and n.func.id == 'divmod' and len(n.args) == 2
+                  and isinstance(n.args[1], ast.Constant) and n.args[1].value == 60]
+        if not splits:
+            continue
+        key = 'R-CARRY::geodepy/angles.py::%s::seconds-carry' % name
+        # a test of the (rounded) seconds against 60 anywhere in the function: `round(second, p) == 60`, `second.round(p) == 60`, `second >= 59.999...`
+        tests = []
+        for n in ast.walk(f.node):
+            if isinstance(n, ast.Compare) and len(n.ops) == 1 and isinstance(n.ops[0], (ast.Eq, ast.GtE)) and isinstance(n.comparators[0], ast.Constant) \
+                    and isinstance(n.comparators[0].value, (int, float)) and 59.9 < n.comparators[0].value <= 60:
+                tests.append(n)
+        if tests:
+            rep.holds('R-CARRY', key, where(f, tests[0]), '%s tests its seconds against 60 (`%s`) before assembling the HP number' % (name, stmt_text(tests[0])[:60]))
+        else:
+            rep.violated('R-CARRY', key, where(f, splits[0]), '%s splits the angle with divmod(.., 60) and assembles D + M/100 + S/10000 without carrying a seconds field that rounds to 60, '
+                         'as its sibling dec2hp does: %s' % (name, CARRY_WITNESS), expected='seconds rounded, 60 carried into the minutes (and 60 minutes into the degrees)',
+                         actual='no test of the seconds against 60')
+
+
 DEC2HP_WITNESS = ('DECAngle(512.9999999999998).hpa() raised "Invalid HP Notation: 3rd decimal place greater than 5: 512.5959999999999" on the code as found: '
                   'dec2hp wrote 13 decimals, the readers (rightly) read 12 from 512 up and round the seconds 59.99999999|9 up to 60')
 
@@ -724,6 +754,8 @@ def digit_rules(repo, rep):
                          expected=str(fields.index(k_)), actual=str(ix_))
         else:
             rep.holds('R-TABLE', key, where(init, init.node), '%s string form: %s = parts 0..%d' % (cname, ', '.join(fields), len(fields) - 1))
+    # ---- sibling rule: every producer of an HP number from decimal degrees carries a seconds field that rounds to 60
+    producer_carry_rules(repo, rep, m)
     # ---- sibling rule: how positional fields are taken out of an HP number
     extraction_rules(repo, rep, m)
     rep.floor('R-DIGITS', 8, 'field cutting of hp2dec / hp2dms / hp2ddm per magnitude regime, assembly of dec2hp, field extraction of the hp2* functions')
